@@ -2,6 +2,7 @@ import Lace.Props.C03
 import Lace.Props.C03Term
 import Lace.Props.C03TermRun
 import Lace.Props.C03Fuel
+import Lace.Props.C03TermFuel
 #print axioms Lace.C03.load_spec
 #print axioms Lace.C03.run_eq_ref
 #print axioms Lace.C03.fetch_in_bounds
@@ -28,3 +29,4 @@ import Lace.Props.C03Fuel
 #print axioms Lace.C03.loop_fuel_agree
 #print axioms Lace.C03.fetches_fuel_mono
 #print axioms Lace.C03.ref_run_fuel_mono
+#print axioms Lace.C03.term_loop_fuel_mono
